@@ -908,6 +908,183 @@ def gen_dispatch(tier, rng):
             yield ('plugin_dispatch', 9, [pl, 0, codec, 2, [2], []])
 
 # ----------------------------------------------------------------------------------------
+# fn 10: object histories -- ONE reader / writer object of a shipped plug-in (recording bodies) driven
+# through several entry points in a row.  arg = [plugin, writer?, codec, [[entry, payload, dst] ...]]
+# writer entries: 0 to_string, 1 to_bytes, 2 write_file(dst), 4 write_stream into a stream of the writer's kind
+# reader entries: 0 parse_string, 1 parse_bytes, 2 parse_file(fsrc), 4 parse_stream(stream)
+# The model answers every writer call on its own (a writer has no state); a reader accumulates its data.
+def own_kind_text(pl, rw):
+    return 1 if pl == 0 else 0
+
+def impl_history(arg):
+    pl, rw, codec, calls = arg
+    enter_sandbox()
+    ST = stubs()
+    enc = ENCODINGS[codec]
+    outs = []
+    with Env(PATH=empty_path(), TEXMFOUTPUT=None), Patched(ST['ET'][0], 'ET', ST['ET'][1]), Patched(ST['yaml'][0], 'yaml', ST['yaml'][1]):
+        obj = (ST['W'] if rw else ST['R'])[pl](encoding=enc)
+        for k, (entry, x, dst) in enumerate(calls):
+            def run():
+                if rw:
+                    if entry == 0:
+                        return obj.to_string(S(x))
+                    if entry == 1:
+                        return list(obj.to_bytes(S(x)))
+                    if entry == 2:
+                        o = mk_wdst(dst, 'hist%d.dat' % k)
+                        return write_result(obj.write_file(S(x), o), o)
+                    st = io.StringIO() if own_kind_text(pl, rw) else io.BytesIO()
+                    obj.write_stream(S(x), st)
+                    v = [enc_stream_val(st.getvalue())]
+                    return [v, v]
+                if entry == 0:
+                    return seen_of(obj.parse_string(S(x)))
+                if entry == 1:
+                    return seen_of(obj.parse_bytes(bytes(x)))
+                if entry == 2:
+                    return seen_of(obj.parse_file(mk_fsrc(x, idx=k)))
+                return seen_of(obj.parse_stream(io.StringIO(S(x[1])) if x[0] == 0 else io.BytesIO(bytes(x[1]))))
+            r = call_impl(run)
+            outs.append(r)
+            if not rw and r[0] != 0:
+                break               # a reader that raised may hold partial data: the history ends here
+    return outs
+
+def model_arg_history(arg):
+    pl, rw, codec, calls = arg
+    out = []
+    for (entry, x, dst) in calls:
+        if entry == 4:          # write_stream / parse_stream directly = the stream case of write_file / parse_file
+            out.append([2, x, [0, own_kind_text(pl, rw)]] if rw else [2, [0, x], []])
+        else:
+            out.append([entry, x, dst])
+    return [pl, rw, codec, out]
+
+def oracle_history(arg, out):
+    pl, rw, codec, calls = arg
+    if rw:
+        for k, ((entry, x, dst), o) in enumerate(zip(calls, out)):
+            e, d = (2, [0, own_kind_text(pl, rw)]) if entry == 4 else (entry, dst)
+            m = oracle_dispatch([pl, 1, codec, e, x, d], o)
+            if m:
+                return 'call %d of the history on one writer object: %s' % (k + 1, m)
+        return None
+    # a reader: after each successful call the data are what the calls so far contributed, in order
+    exp = []
+    for k, ((entry, x, dst), o) in enumerate(zip(calls, out)):
+        if o[0] != 0:
+            return None
+        e, xx = (2, [0, x]) if entry == 4 else (entry, x)
+        single = impl_dispatch([pl, 0, codec, e, xx, []])     # the same call on a fresh reader
+        if single[0] != 0:
+            return 'call %d succeeded in the history but fails on a fresh reader' % (k + 1)
+        exp = exp + single[1]
+        if o[1] != exp:
+            return 'after call %d the reader holds %s, expected %s' % (k + 1, o[1], exp)
+    return None
+
+def gen_history(tier, rng):
+    wtexts = ['café', 'a|b', 'Ж€ x', '~', 'naïve x']
+    rtexts = ['café', 'x\r\ny', 'Ж', 'abc']
+    for pl in (0, 1, 2):
+        for codec in (0, 1, 3) if tier == 'quick' else (0, 1, 2, 3):
+            # writers: every ordered selection of 2 and 3 of the four entry points, and some with repetition
+            wentries = [0, 1, 2, 4]
+            seqs = [p for n in (2, 3) for p in itertools.permutations(wentries, n)] + [(0, 0, 1), (1, 0, 1), (0, 2, 0, 1), (4, 0, 4, 1), (2, 1, 0, 4)]
+            seqs += [(1, 1), (0, 0), (2, 2), (4, 4), (1, 0, 1, 1)]
+            for seq in seqs:
+                off = rng.randrange(len(wtexts))       # a different document for every call of the history
+                yield ('object_history', 10, [pl, 1, codec, [[e, wtexts[(off + i) % len(wtexts)], [1] if e == 2 else []] for i, e in enumerate(seq)]])
+            # readers
+            rentries = [0, 1, 2, 4]
+            seqs = [p for n in (2, 3) for p in itertools.permutations(rentries, n)] + [(0, 0), (1, 1, 0), (2, 2), (4, 0, 4, 2)]
+            for seq in seqs:
+                calls = []
+                for e in seq:
+                    t = rng.choice(rtexts)
+                    try:
+                        raw = list(t.encode(ENCODINGS[codec]))
+                    except UnicodeEncodeError:
+                        raw = list(t.encode('utf-8'))
+                    if e == 0:
+                        calls.append([0, t, []])
+                    elif e == 1:
+                        calls.append([1, raw, []])
+                    elif e == 2:
+                        calls.append([2, [1, raw], []])
+                    else:
+                        calls.append([4, [0, t] if pl == 0 else [1, raw], []])
+                yield ('object_history', 10, [pl, 0, codec, calls])
+
+# ----------------------------------------------------------------------------------------
+# fn 11: histories on the REAL plug-in objects, built as the API documents:
+# find_plugin(group, name)(encoding=...) -- oracle only: every call must answer as a fresh object does
+# arg = [spec, fmt_i, enc, [entries]]   writer entries 0 to_string 1 to_bytes 2 write_file(name) 4 write_stream
+HIST_ENCODINGS = ['utf-8', 'latin-1', 'utf-16', 'iso-8859-1', 'cp1251']
+
+def real_writer_call(w, db, entry, enc, k):
+    if entry == 0:
+        return w.to_string(db).encode('utf-8', 'surrogatepass')
+    if entry == 1:
+        return w.to_bytes(db)
+    if entry == 2:
+        q = my_tmp('rh%d.out' % k)
+        if os.path.exists(q):
+            os.remove(q)
+        w.write_file(db, q)
+        with open(q, 'rb') as fh:
+            return fh.read()
+    st = io.StringIO() if w.unicode_io else io.BytesIO()
+    w.write_stream(db, st)
+    v = st.getvalue()
+    return v.encode(enc) if isinstance(v, str) else v
+
+def impl_real_history(arg):
+    spec, fmt_i, enc_i, entries = arg
+    enter_sandbox()
+    from pybtex.plugin import find_plugin
+    fmt = REAL_FORMATS[fmt_i][0]
+    enc = HIST_ENCODINGS[enc_i]
+    obs = []
+    with Env(PATH=empty_path(), TEXMFOUTPUT=None):
+        try:
+            db = build_db(spec)
+            db.to_string(fmt).encode(enc)
+        except Exception:
+            return [0, []]
+        w = find_plugin(G_OUT, fmt)(encoding=enc)
+        db2 = build_db([spec[0], spec[1] + [[norm('zz'), norm('misc'), [[norm('note'), norm('other')]], []]]])
+        for k, e in enumerate(entries):
+            cur = db if k % 2 == 0 else db2          # a different database for consecutive calls
+            a = outcome(lambda: real_writer_call(w, cur, e, enc, k))
+            b = outcome(lambda: real_writer_call(find_plugin(G_OUT, fmt)(encoding=enc), cur, e, enc, 100 + k))
+            enc_o = lambda o: [0, list(o[1])] if o[0] == 'ok' else [1, norm(o[1])]
+            obs.append([e, enc_o(a), enc_o(b)])
+    return [0, obs]
+
+def oracle_real_history(arg, out):
+    spec, fmt_i, enc_i, entries = arg
+    names = {0: 'to_string', 1: 'to_bytes', 2: 'write_file', 4: 'write_stream'}
+    for k, (e, a, b) in enumerate(out[1]):
+        if a != b:
+            return ('call %d (%s) on a %s writer object [%s] that already served %s answers %r..., a fresh writer answers %r...'
+                    % (k + 1, names[e], REAL_FORMATS[fmt_i][0], HIST_ENCODINGS[enc_i], [names[x] for x in entries[:k]],
+                       bytes(a[1][:50]) if a[0] == 0 else S(a[1]), bytes(b[1][:50]) if b[0] == 0 else S(b[1])))
+    return None
+
+def gen_real_history(tier, rng):
+    specs = [[[], [['k', 'misc', [['title', 'café Müller']], [['author', ['Knuth, Donald']]]]]],
+             [['pré'], [['k1', 'book', [['note', 'Жук']], []], ['k2', 'misc', [], []]]]]
+    ents = [0, 1, 2, 4]
+    seqs = [p for n in (2, 3) for p in itertools.permutations(ents, n)] + [(0, 0, 1), (1, 1), (0, 0), (2, 2), (4, 4), (0, 2, 0, 2)]
+    for si, spec in enumerate(specs):
+        for fmt_i in range(3):
+            for enc_i in ((1, 2, 3) if tier == 'quick' else range(len(HIST_ENCODINGS))):
+                for seq in (seqs if (tier == 'thorough' or si == 0) else seqs[:12]):
+                    yield ('object_history_real', 11, [spec, fmt_i, enc_i, list(seq)])
+
+# ----------------------------------------------------------------------------------------
 FUNCS = {
     1: ('pybtex.plugin register_plugin/find_plugin/enumerate_plugin_names (history)', impl_registry,
         ('T', 'N', ('L', 'X'))),
@@ -922,6 +1099,8 @@ FUNCS = {
         ('T', ('T', ('L', 'S'), ('L', ('T', 'S', 'S', ('L', ('T', 'S', 'S')), ('L', ('T', 'S', ('L', 'S')))))), 'X', 'X', 'B')),
     8: ('open failures on the real file system (open_raw/open_unicode/to_file/write_file/parse_file)', impl_fs, 'X'),
     9: ('entry points of the shipped bibtex/yaml/bibtexml readers and writers, bodies replaced by recorders', impl_dispatch, ('T', 'X', 'X', 'X', 'X', 'X', 'X')),
+    10: ('histories of entry-point calls on ONE reader / writer object of a shipped plug-in (recording bodies)', impl_history, ('T', 'X', 'X', 'X', ('L', 'X'))),
+    11: ('histories of calls on ONE real writer object built by find_plugin(...)(encoding=...) (oracle only)', impl_real_history, ('T', 'X', 'X', 'X', ('L', 'X'))),
 }
 
 class _Intern:
@@ -947,6 +1126,10 @@ class _Intern:
     def calls(self, calls):
         return [self.call(c) for c in calls]
 
+# core's order-independence replay (one fresh process, shuffled): the real-plug-in sweep (60 ms per case) is
+# left out -- cross-call state of the real parsers/writers is C18's subject, and fn 9-11 run the same classes
+ORDER_REPLAY_SKIP_FUNCS = (7, 2)
+
 def model_arg(fn, arg):
     if fn == 1:
         mode, calls = arg
@@ -958,13 +1141,17 @@ def model_arg(fn, arg):
         return [[[it(g), it(n), k] for (g, n, k) in FAKE6], [[it(g), it(d)] for g, d in defaults_table()], it.calls(arg[0])] + list(arg[1:]) + [it.tab]
     if fn == 8:
         return model_arg_fs(arg)
+    if fn == 10:
+        return model_arg_history(arg)
     return arg
 
 def canon(fn, out):
     if fn == 1:
         return [canon_res(o) for o in out] if isinstance(out, list) else out
-    if fn == 7:
+    if fn in (7, 11):
         return 'oracle-only'
+    if fn == 10:
+        return [canon_res(o) for o in out] if isinstance(out, list) else out
     if fn == 3:
         return out
     return canon_res(out)
@@ -1193,6 +1380,10 @@ def oracle(fn, arg, out):
         return oracle_writer(arg, out)
     if fn == 9:
         return oracle_dispatch(arg, out)
+    if fn == 10:
+        return oracle_history(arg, out)
+    if fn == 11:
+        return oracle_real_history(arg, out)
     return None
 
 def oracle_reader(arg, out):
@@ -1258,12 +1449,17 @@ def _sig_a(kind, fn, arg, detail):
     # the YAML writer ignores its encoding: to_bytes / write_file are always UTF-8
     if kind == 'oracle' and fn == 9:
         return arg[0] == 1 and arg[1] == 1 and arg[2] != 0 and str(detail).startswith('to_bytes [yaml, ')
+    if kind == 'oracle' and fn == 10:
+        return arg[0] == 1 and arg[1] == 1 and arg[2] != 0 and 'to_bytes [yaml, ' in str(detail)
     return (kind == 'oracle' and fn == 7 and REAL_FORMATS[arg[1]][0] == 'yaml' and REAL_ENCODINGS[arg[2]] != 'utf-8'
             and isinstance(detail, str) and detail.startswith('to_bytes [yaml, ') and 'is not the to_string document encoded' in detail)
 def _sig_b(kind, fn, arg, detail):
     # an empty document and an encoding that writes a byte-order mark: the file stays empty, to_bytes is the BOM
     if kind == 'oracle' and fn == 9:
         return arg[0] == 0 and arg[1] == 1 and arg[2] == 3 and arg[3] == 2 and arg[4] == [126] and arg[5] == [1] and 'write_file did not write exactly' in str(detail)
+    if kind == 'oracle' and fn == 10:
+        return (arg[0] == 0 and arg[1] == 1 and arg[2] == 3 and any(c[0] == 2 and c[1] == [126] for c in arg[3])
+                and 'write_file did not write exactly' in str(detail))
     if kind == 'oracle' and fn == 5:
         # the same with the probe writer: nothing written ("~"), utf-16, a named file
         return arg[0] == 1 and arg[1] == 3 and arg[2] == 2 and arg[3] == [126] and arg[4] == [1] and 'write_file did not write exactly' in str(detail)
@@ -1317,6 +1513,7 @@ RULE = ('registry: all histories of <= 3 registrations (thorough: also <= 4 over
         'against a table-driven entry_points(), each followed by a fixed probe vector of 16 look-ups, plus pinned (F11) and random/malformed histories against the real installed entry points; '
         '_open/open_raw/open_unicode: the full matrix of (first, fallback) opener outcomes x TEXMFOUTPUT x mode x file-name shapes, and of isfile x kpsewhich outcomes (a real subprocess); '
         'recorder subclasses of the real bibtex/yaml/bibtexml readers and writers (fn 9) and probe plug-ins (recording parse_stream / chunked write_stream) through every BaseParser/BaseWriter method and every module-level function x 4 codecs (utf-8, latin-1, ascii, utf-16) over fixed and random texts / byte strings incl. malformed UTF-8/UTF-16; '
+        'object histories: ONE reader / writer object per shipped plug-in (recorder subclasses; and the real writers built by find_plugin(...)(encoding=...), oracle only) driven through 2-4 entry points in a row in every order (to_string, to_bytes, write_file, write_stream; parse_string, parse_bytes, parse_file, parse_stream), a different document per call, non-UTF-8 encodings; every writer call is compared with the model answer for that call alone, a reader with the accumulated data; '
         'oracle only: the three real formats x aliases x every registered suffix x 5 encodings x all reader and writer entry points over generated databases (incl. CRLF documents); '
         'open failures on the real file system through open_raw/open_unicode/to_file/write_file/parse_file. '
         'distinct = distinct (function, argument); non-trivial = a registration succeeded / an open attempt failed or fell back / a non-empty suffix / any glue case.')
@@ -1404,9 +1601,11 @@ def reg_alphabet(groups, names=(0, 1)):
 def gen_registry(tier, rng):
     groups = [G_IN, G_BACK]
     pv = probe_vector(groups)
-    plans = [(reg_alphabet(groups), 3)]
     if tier == 'thorough':
-        plans += [(reg_alphabet([G_IN]), 4), (reg_alphabet([G_IN], names=(0,)), 5)]
+        plans = [(reg_alphabet(groups), 3), (reg_alphabet([G_IN]), 4), (reg_alphabet([G_IN], names=(0,)), 5)]
+    else:
+        # quick: cross-group interplay up to length 2, one group up to length 3
+        plans = [(reg_alphabet(groups), 2), (reg_alphabet([G_IN]), 3)]
     # pairs that differ only in case, registered to different classes: ('x', 'X') as name, alias and suffix
     case_ops = [(G_IN + kind, nm, force) for kind, pool in (('', ['x', 'X']), ('.aliases', ['x', 'X']), ('.suffixes', ['.x', '.X', '.I']))
                 for nm in pool for force in (0, 1)]
@@ -1629,6 +1828,6 @@ def gen_fs(tier, rng):
 
 def gen(tier, rng):
     sandbox()
-    for g in (gen_registry, gen_splitext, gen_open, gen_glue, gen_module, gen_dispatch, gen_real, gen_fs):
+    for g in (gen_registry, gen_splitext, gen_open, gen_glue, gen_module, gen_dispatch, gen_history, gen_real_history, gen_real, gen_fs):
         for c in g(tier, rng):
             yield c
